@@ -143,6 +143,7 @@ var VerdictDefects = map[string]func(*model.Defects){
 	"named-format-type":             func(d *model.Defects) { d.NamedFormat = true },
 	"named-array-no-rules":          func(d *model.Defects) { d.NamedArrayNoLim = true },
 	"null-enum-default":             func(d *model.Defects) { d.EnumNullZero = true },
+	"null-named-scalar-default":     func(d *model.Defects) { d.NamedNullZero = true },
 	"map-value-anon-struct":         func(d *model.Defects) { d.MapValueAnon = true },
 	"null-items-no-limits":          func(d *model.Defects) { d.NullItemsNoLim = true },
 }
@@ -768,7 +769,7 @@ func parity(cfg *Config, rep *Report, ks *known.Set, p pending, j, y *batch.Res)
 			if ks.Has(sig) {
 				set(dj)
 				names = append(names, sig)
-				if sig != "null-object-zero" && sig != "null-enum-default" {
+				if sig != "null-object-zero" && sig != "null-enum-default" && sig != "null-named-scalar-default" {
 					set(dy)
 				}
 			}
